@@ -497,6 +497,13 @@ func C07(c *fw.Ctx) {
 		delete(scenarios, j.ID)
 		maxMuLock.Unlock()
 		if sc == nil {
+			// an error in a file other than the root was reached through INCLUDE: Error() must say how
+			if name := relName(res, res.Err.File); len(pairs) == 0 && name != j.Root && filepath.Clean(name) != filepath.Clean(j.Root) {
+				if _, ok := j.Files[name]; ok {
+					c.Violate("trace:missing", fmt.Sprintf("the error is located in %s, a file reached through INCLUDE, and Error() has no include trace: %q", name, trunc(res.Err.ErrorStr, 160)), replayOf(j, res))
+					return
+				}
+			}
 			// corpus, mutants and graphs: the chain must at least be a chain (each frame includes the file of the frame before it)
 			if kind, what := traceChainProblem(j.Files, j.Root, pairs); kind != "" {
 				c.Violate(kind, what, replayOf(j, res))
